@@ -190,4 +190,28 @@ def run(ctx):
     if cf:
         from .shared import single_batch
         single_batch(ctx, R4, cf)
+    R5 = "C05.R5"
+    run.rule(R5, "cancel acts on refreshed state: the rollback runs only after update_wallet_state reported success", floor=1)
+    oc = ctx.fn(c.LW + "api_impl::owner::cancel_tx")
+    if oc:
+        UWS = c.LW + "api_impl::owner::update_wallet_state"
+        cb = {b for b, _t in cfg.find_calls(oc, TX + "cancel_tx")}
+        held = False
+        if cb and cfg.find_calls(oc, UWS):
+            ok_e, _n = c.guard_edges(ctx, oc, UWS, R5)
+            for b, bb in enumerate(oc.bbs):
+                t = bb["t"]
+                if t["k"] != "sw" or t.get("ty") != "bool":
+                    continue
+                pr = vf.producers(oc, t["o"]) | vf.origins(oc, t["o"])
+                if not vf.has_call(pr, UWS):
+                    continue
+                edges = [{(b, tb)} for _v, tb in t["t"]] + [{(b, t["else"])}]
+                # exactly one branch of the test on the returned bool leads to the rollback
+                leads = [e for e in edges if any(x in cfg.reach(oc, starts=[list(e)[0][1]]) for x in cb)]
+                if len(leads) == 1 and cfg.must_pass(oc, leads[0], cb)[0] and cfg.must_pass(oc, ok_e, cb)[0]:
+                    held = True
+        run.instance(R5, {"fn": "api_impl::owner::cancel_tx", "obligation": "tx::cancel_tx is reached only on one branch of the test of update_wallet_state's Ok(bool)"}, held=held)
+        if not held:
+            run.finding(Finding(R5, oc.id, "the rollback no longer depends on the refresh having succeeded (a confirmed transaction could be cancelled on stale state)", site=oc.loc()))
     run.not_decided += ["'exactly what they were before' as an equality of balances (numeric, over histories)"]
